@@ -9,6 +9,7 @@ Separate file because `Props/C09.lean` imports `Props/C08.lean`.
 -/
 import Nitime.Props.C09
 import Nitime.Lemmas.C08Hist
+import Nitime.Lemmas.C08Retarget
 
 open Finset ComplexConjugate
 open Nitime.Coh Nitime.C08.Props Nitime.C09.Props
@@ -77,5 +78,50 @@ theorem confidence_interval_inplace_counterexample {V : Type} (g : V → V) (F :
 /-- non-vacuity of the counterexample: with `g = (· + 1)` a coherence value 1 becomes 2 > 1 -/
 example : rd (runReads false (fun x : Nat => x + 1) id [1] St.init [Rd.coherence, Rd.confidence_interval]).2.heap 0 = [2] := by
   decide
+
+/-! ### the short-input guard of `CoherenceAnalyzer` (class L7: both sides of a guard) -/
+
+/-- **a single Welch window ⇔ (padded) length < 2·NFFT − n_overlap** — the condition under which every coherence value is
+1 by construction -/
+theorem single_window_iff (n NFFT nov : ℕ) (hov : nov < NFFT) :
+    nSeg n NFFT (NFFT - nov) = 1 ↔ paddedLen n NFFT < 2 * NFFT - nov := by
+  unfold nSeg
+  have hstep : 0 < NFFT - nov := Nat.sub_pos_of_lt hov
+  have hp : NFFT ≤ paddedLen n NFFT := by unfold paddedLen; split <;> omega
+  constructor
+  · intro h
+    have h0 : (paddedLen n NFFT - NFFT) / (NFFT - nov) = 0 := by omega
+    rcases Nat.div_eq_zero_iff.1 h0 with h1 | h1 <;> omega
+  · intro h
+    have : (paddedLen n NFFT - NFFT) / (NFFT - nov) = 0 := Nat.div_eq_of_lt (by omega)
+    omega
+
+/-- the constructor's warning condition `n < NFFT + n_overlap` is that condition exactly at half overlap (even NFFT) … -/
+theorem warning_guard_at_half_overlap (n NFFT : ℕ) (h2 : NFFT % 2 = 0) (hN : 0 < NFFT) (hn : NFFT ≤ n) :
+    n < NFFT + NFFT / 2 ↔ nSeg n NFFT (NFFT - NFFT / 2) = 1 := by
+  rw [single_window_iff n NFFT (NFFT / 2) (by omega)]
+  unfold paddedLen
+  split <;> omega
+
+/-- … and NOT for larger overlaps: NFFT = 64, n_overlap = 48, n = 100 satisfies the warning condition but has three
+windows (an early exit "coherence = 1" keyed on the warning is wrong there: seeded change C08-10) -/
+theorem warning_guard_not_single_window :
+    (100 : ℕ) < 64 + 48 ∧ nSeg 100 64 (64 - 48) = 3 := by decide
+
+/-! ### `set_input` with the object already held (class L8) -/
+open Nitime.C08.Retarget in
+/-- **after `set_input r` every getter answers from the samples `r` holds now**, for every earlier history of in-place
+changes, re-targets and reads — also when `r` is the very object the analyzer already held -/
+theorem set_input_reads_current_data {D R : Type} (f : D → R) (h : ℕ → D) (a : An R) (pre : List (Ev D)) (r k : ℕ) :
+    (run false f h a (pre ++ Ev.setInput r :: reads k)).2.2
+      = (run false f h a pre).2.2 ++ none :: List.replicate k (some (f ((run false f h a pre).1 r))) :=
+  retarget_reads_current f h a pre r k
+
+open Nitime.C08.Retarget in
+/-- keeping the cache when handed the same object: read, change the data in place, `set_input` again, read — stale -/
+theorem set_input_skip_same_object_counterexample {D R : Type} (f : D → R) (h : ℕ → D) (r : ℕ) (d' : D) :
+    (run true f h ⟨r, none⟩ [Ev.read, Ev.mutate r d', Ev.setInput r, Ev.read]).2.2
+      = [some (f (h r)), none, none, some (f (h r))] :=
+  skip_same_object_counterexample f h r d'
 
 end Nitime.C08.CacheProps
